@@ -229,4 +229,13 @@ def run(ck):
             ck.ok("Q3.copy-len", adv[0].where(), "html_quote: cursor advances by %s.length() of the copied sequence" % obj)
         else:
             ck.violation("Q3.copy-len", "Q3|html_quote|advance", s.where(), "html_quote: after %s the cursor is not advanced by %s.length()" % (s.desc(), obj))
+    ck.rule("Q4 html_quote(): the quoted string is terminated (and returned) only after the scan has reached the source's NUL: the last evaluation of "
+            "`*src` on every path to the terminator store is false. Any other way out of the copy loop (a capacity or length test) returns a silently "
+            "truncated quotation")
+    term = lambda ev: (ev.get("e") == "asg" and ev.get("op") == "=" and E.strip(ev["lhs"]).get("k") == "un" and dstv in E.mentions(ev["lhs"])
+                       and E.const(ev.get("rhs")) == 0)
+    at_nul = E.M(lambda t: E.strip(t).get("k") == "un" and E.strip(t).get("op") == "*" and E.strip(E.strip(t).get("e") or {}).get("k") == "ref"
+                 and dstv not in E.mentions(t), "*src")
+    ck.require_any("Q4.scan-complete", hq, term, [(at_nul, False)], "*dst = '\\0'", why="(the copy loop can end before the end of the input)")
+
     ck.assume("reversibility (decoding returns the original) is not decided beyond distinct, well-formed entities; SBuf::Printf/copy semantics are trusted")
